@@ -97,7 +97,7 @@ func genC20Plan(r *zsim.Rng) *sysPlan {
 	p.Args = append(p.Args, "--preview", tmpl)
 	narrowWide := false
 	if r.Chance(1, 2) {
-		p.Args = append(p.Args, "--preview-window", pick(r, "right", "left,30%", "up", "down,50%", "hidden", "right,border-none", "up,follow", "right,follow", "down,30%,follow", "right,50%,<40(hidden)", "right,50%,<40(up,40%)"))
+		p.Args = append(p.Args, "--preview-window", pick(r, "right", "left,30%", "up", "down,50%", "hidden", "right,border-none", "up,follow", "right,follow", "down,30%,follow", "right,50%,<40(hidden)", "right,50%,<40(up,40%)", "right,+3", "up,+5", "right,+2,follow"))
 		narrowWide = strings.Contains(p.Args[len(p.Args)-1], "<40")
 	}
 	for _, b := range c20Binds {
